@@ -21,6 +21,9 @@ C_FUNCS = [
     ("trees.c", "tsk_tree_check_node"),
     ("trees.c", "tsk_tree_insert_branch"), ("trees.c", "tsk_tree_remove_branch"),
     ("trees.c", "tsk_tree_insert_root"), ("trees.c", "tsk_tree_remove_root"),
+    # roots (children of the virtual root), sample status and the walk to a node's root
+    ("trees.c", "tsk_tree_is_sample"), ("trees.c", "tsk_tree_get_left_root"), ("trees.c", "tsk_tree_get_right_root"),
+    ("trees.c", "tsk_tree_get_num_roots"), ("trees.c", "tsk_tree_get_node_root"), ("trees.c", "tsk_tree_node_root"),
     ("tables.c", "tsk_table_collection_check_tree_integrity"),
 ]
 LEMMAS = ["lemmas.tree_links:edits_preserve_wellformedness"]
